@@ -23,7 +23,7 @@ ASSUMPTIONS = [
     "CORS is not given all-zero losses (its normalisation divides by max|loss|)",
 ]
 REQUIRED_COUNTERS = {f"batches_{k}": 20 for k in G.SAMPLER_KINDS}
-REQUIRED_COUNTERS.update({"spaces_with_integer_typed_bounds": 30, "swarm_restarts_on_empty_history": 3, "cors_runs_beyond_max_samples": 1, "spaces_with_equal_length_axes": 20, "spaces_with_a_million_point_axis": 5, "bestbatch_history_shorter_than_batch": 3, "nonaligned_spaces": 50, "multi_call_objects": 50, "second_space_calls": 60, "spaces_with_nearly_equal_axes_far_from_the_origin": 30, "second_space_of_another_dimension": 40})
+REQUIRED_COUNTERS.update({"spaces_with_integer_typed_bounds": 30, "swarm_restarts_on_empty_history": 3, "cors_runs_beyond_max_samples": 1, "spaces_with_equal_length_axes": 20, "spaces_with_a_million_point_axis": 5, "bestbatch_history_shorter_than_batch": 1, "nonaligned_spaces": 50, "multi_call_objects": 50, "second_space_calls": 60, "spaces_with_nearly_equal_axes_far_from_the_origin": 30, "second_space_of_another_dimension": 40})
 SHARDS = {"quick": 16, "thorough": 16}
 SHARD_WATCHDOG = {"quick": 1500, "thorough": 10800}
 
